@@ -1,1 +1,15 @@
-def main : IO Unit := pure ()
+/-
+`driver`: reads harness lines on stdin, evaluates model + spec oracle (see
+X86Model/Driver/Proto.lean). The handler chain tries each property family in turn.
+-/
+import X86Model.Driver.Proto
+import X86Model.Driver.Addr
+
+open X86 X86.Driver
+
+def allHandlers : List Handler := [handleC05]
+
+def dispatch : Handler := fun cfg op a impl =>
+  allHandlers.firstM (fun h => h cfg op a impl)
+
+def main (_args : List String) : IO UInt32 := run dispatch
